@@ -114,3 +114,5 @@ func vAtoi(s string) int {
 	}
 	return n
 }
+
+func vItoa(n int) string { return strconv.Itoa(n) }
